@@ -791,12 +791,13 @@ struct Digit {
                     if (m_shift < positive_exp) {
                         b_int <<= (positive_exp - m_shift);
                     } else {
+                        // Bits of the mantissa below the first set one are zeros.
+                        round_up = ((m_shift - positive_exp) > first_shift);
                         b_int >>= (m_shift - positive_exp);
                     }
 
                     if (drop != 0) {
-                        round_up = true;
-                        bigIntDropDigits(b_int, drop);
+                        round_up |= bigIntDropDigits(b_int, drop);
                     }
                 } else {
                     SizeT32 shift   = 0;
@@ -821,7 +822,6 @@ struct Digit {
                     if (fraction_length > needed) {
                         shift           = (fraction_length - needed);
                         fraction_length = needed;
-                        round_up        = true;
                     }
 
                     b_int >>= first_shift;
@@ -837,6 +837,7 @@ struct Digit {
                             b_int *= DigitConst::GetPowerOfFive(DigitConst::MaxPowerOfFive);
 
                             if ((b_int.Index() >= max_index) && (shift >= DigitConst::MaxShift)) {
+                                round_up |= (b_int.Number() != 0); // The word about to be dropped.
                                 b_int >>= DigitConst::MaxShift;
                                 shift -= DigitConst::MaxShift;
                             }
@@ -849,7 +850,11 @@ struct Digit {
                         b_int *= DigitConst::GetPowerOfFive(times);
                     }
 
-                    b_int >>= shift;
+                    if (shift != 0) {
+                        // round_up: whether any of the bits dropped by the shifts was set.
+                        round_up |= (b_int.NotZero() && (b_int.FindFirstBit() < shift));
+                        b_int >>= shift;
+                    }
                 }
 
                 const SizeT start_at = stream.Length();
@@ -951,17 +956,21 @@ struct Digit {
     }
 
     template <typename BigInt_T>
-    inline static void bigIntDropDigits(BigInt_T &b_int, SizeT32 drop) noexcept {
+    inline static bool bigIntDropDigits(BigInt_T &b_int, SizeT32 drop) noexcept {
+        // Returns true if anything other than zeros has been dropped.
         using DigitConst = DigitUtils::DigitConst<BigInt_T::SizeOfType()>;
+        bool inexact     = false;
 
         while (drop >= DigitConst::MaxPowerOfFive) {
-            b_int /= DigitConst::GetPowerOfFive(DigitConst::MaxPowerOfFive);
+            inexact |= (b_int.Divide(DigitConst::GetPowerOfFive(DigitConst::MaxPowerOfFive)) != 0);
             drop -= DigitConst::MaxPowerOfFive;
         }
 
         if (drop != 0) {
-            b_int /= DigitConst::GetPowerOfFive(drop);
+            inexact |= (b_int.Divide(DigitConst::GetPowerOfFive(drop)) != 0);
         }
+
+        return inexact;
     }
 
     template <typename Stream_T>
@@ -979,7 +988,7 @@ struct Digit {
             --index;
             index += SizeT(number_length - precision);
 
-            roundStringNumber(stream, index, power_increased, round_up);
+            roundStringNumber(stream, started_at, index, power_increased, round_up);
             storage = stream.Storage(); // The carry may have been appended.
 
             if (is_positive_exp) {
@@ -1079,7 +1088,7 @@ struct Digit {
             if (diff <= precision) {
                 if (fraction_length > precision) {
                     index += SizeT(fraction_length - (precision + SizeT{1}));
-                    roundStringNumber(stream, index, power_increased, (round_up | (diff != 0)));
+                    roundStringNumber(stream, started_at, index, power_increased, round_up);
                     storage = stream.Storage(); // The carry may have been appended.
 
                     Char_T       *number = (storage + index);
@@ -1159,11 +1168,26 @@ struct Digit {
     }
 
     template <typename Stream_T>
-    static void roundStringNumber(Stream_T &stream, SizeT &index, bool &power_increased, bool round_up) noexcept {
+    static void roundStringNumber(Stream_T &stream, const SizeT started_at, SizeT &index, bool &power_increased,
+                                  bool round_up) noexcept {
         using Char_T = typename Stream_T::CharType;
 
         const Char_T *last   = stream.Last();
         Char_T       *number = (stream.Storage() + index);
+
+        if (!round_up && (*number == DigitUtils::DigitChar::Five)) {
+            // Half-way only if every digit below is zero.
+            const Char_T *lower = (stream.Storage() + started_at);
+
+            while (lower < number) {
+                if (*lower != DigitUtils::DigitChar::Zero) {
+                    round_up = true;
+                    break;
+                }
+
+                ++lower;
+            }
+        }
 
         ++index;
 
